@@ -68,7 +68,7 @@ async def _alone(sim, request):
         for status in ("IS_REQUIRED", "IS_OPTIONAL"):
             task = asyncio.get_running_loop().create_task(
                 validate_data_element_freetext(
-                    build_node(element), RequirementValidationValue(status), request["op"]["soll"]
+                    build_node(element), RequirementValidationValue(status), soll_is_required=request["op"]["soll"]
                 )
             )
             try:
